@@ -35,6 +35,15 @@ TRUSTED = ['python ast', 'NumPy transfer rules of vlib/shape.py (indexing, reduc
 ASSUMPTIONS = ['model attributes have the axes asserted by _load_data', 'channel ids passed by callers are valid channel indices']
 
 
+
+def _positive_floor(tp, v):
+    """`max(threshold, c)` / np.maximum / np.clip with a positive constant c: the requested threshold is raised to a floor."""
+    if not Pat().any(['max(%s, E_c)' % tp, 'max(E_c, %s)' % tp, 'np.maximum(%s, E_c)' % tp, 'np.maximum(E_c, %s)' % tp, 'np.clip(%s, E_c, REST)' % tp], v):
+        return False
+    others = [a for a in v.args[:2] if not (isinstance(a, ast.Name) and a.id == tp)]
+    cv = const_value(others[0]) if len(others) == 1 else None
+    return isinstance(cv, (int, float)) and not isinstance(cv, bool) and cv > 0
+
 def record_checks(ctx, fi, label, rec, S, explicit=False, whitened=False):
     if not isinstance(rec, Rec):
         ctx.undecided('C05.A1', fi, '%s: the result is %s, not a record' % (label, rec))
@@ -191,6 +200,9 @@ def run(ctx):
             ctx.holds('C05.K2', fb, 'the model default replaces the threshold only when none (None) is given; 0 is honoured', a)
         elif any(isinstance(i_, ast.If) and Pat().m('%s is None' % tp, i_.test) for i_ in fb.ancestors(a)):
             ctx.holds('C05.K2', fb, 'the model default replaces the threshold only when none (None) is given; 0 is honoured', a)
+        elif _positive_floor(tp, v):
+            ctx.violated('C05.K2', fb, a, '`%s` raises every requested threshold to a positive floor: with a threshold of 0 (the model default) channels whose amplitude is 0 or below '
+                         'the floor times the peak are dropped although 0 >= 0 * peak lists them' % unparse(a))
         else:
             ctx.undecided('C05.K2', fb, 'default substitution `%s` not recognised' % unparse(a), a)
     for i in fb.nodes(ast.If):
